@@ -720,11 +720,17 @@ def getitem_cases(rnd, n, prefix="G", max_rank=3, dtypes=GETITEM_DTYPES, exhaust
             # malformed: too few / too many indices, unsupported entries -> IndexError / TypeError
             bad = rnd.choice(["few", "many", "type"])
             if bad == "few" and len(sh) >= 2:
-                src = idx_src(rand_index(rnd, sh[:-1])).replace("...", "slice(None, None, None)")
-                if "..." in src:
-                    continue
+                # no ellipsis, strictly fewer addressing entries than axes (all-slice entries: nothing can be out of range)
+                k_ = rnd.randint(1, len(sh) - 1)
+                its = [f"slice({a_}, {b_}, {s_})" for a_, b_, s_ in (rnd.choice(slice_alphabet(n_)) for n_ in sh[:k_])]
+                if rnd.random() < 0.3:
+                    its.insert(rnd.randint(0, len(its)), "None")
+                src = idx_src(its)
             elif bad == "many":
-                src = idx_src(rand_index(rnd, sh + [2])).replace("...", "slice(None, None, None)")
+                its = [it for it in rand_index(rnd, sh + [2]) if it != "..."]
+                if sum(1 for it in its if it != "None") <= len(sh):
+                    continue
+                src = idx_src(its)
             elif bad == "type":
                 src = rnd.choice(["(1.5,)", "('a',)", "([0, 1],)"]) if sh else "(1.5,)"
             else:
